@@ -298,3 +298,114 @@ pub fn parse_args(args: &[String]) -> Args {
     }
     a
 }
+
+// ---------------------------------------------------------------- trees with shuffled arenas
+/// grows a random subtree below (parent,label); returns nothing (indices are whatever slab hands out)
+pub fn grow_subtree<const K: usize>(
+    r: &mut Rng,
+    t: &mut AffTree<K>,
+    parent: usize,
+    label: usize,
+    n: usize,
+    m: usize,
+    depth_left: usize,
+    cfg: TreeCfg,
+    pool: &[AffFunc],
+) {
+    let max_rows = (K as f64).log2().floor() as usize;
+    let term = |r: &mut Rng| -> AffFunc {
+        if pool.is_empty() {
+            gen_aff(r, m, n, cfg.maxk)
+        } else {
+            pool[r.below(pool.len())].clone()
+        }
+    };
+    if depth_left == 0 || r.chance(cfg.early_leaf_pct, 100) {
+        t.add_child_node(parent, label, term(r)).unwrap();
+        return;
+    }
+    let rows = 1 + r.below(max_rows);
+    let c = t.add_child_node(parent, label, gen_dec(r, rows, n, cfg.maxk)).unwrap();
+    let nlabels = 1usize << rows;
+    let mut created = 0;
+    for l in 0..nlabels {
+        let last = l == nlabels - 1;
+        if r.chance(cfg.partial_pct, 100) && !(last && created == 0) {
+            continue;
+        }
+        created += 1;
+        grow_subtree(r, t, c, l, n, m, depth_left - 1, cfg, pool);
+    }
+}
+
+/// random tree whose arena indices are not in creation order: some subtrees are removed and regrown
+pub fn gen_tree_holes<const K: usize>(r: &mut Rng, n: usize, m: usize, cfg: TreeCfg, rounds: usize) -> AffTree<K> {
+    let mut t: AffTree<K> = gen_tree(r, n, m, cfg);
+    let pool: Vec<AffFunc> = (0..cfg.term_pool).map(|_| gen_aff(r, m, n, cfg.maxk)).collect();
+    for _ in 0..rounds {
+        let idxs: Vec<usize> = t.tree.node_indices().filter(|i| *i != t.tree.get_root_idx()).collect();
+        if idxs.is_empty() {
+            break;
+        }
+        let victim = idxs[r.below(idxs.len())];
+        let (parent, label) = {
+            let e = t.tree.parent(victim).unwrap();
+            (e.source_idx, e.label)
+        };
+        t.tree.remove_child(parent, label);
+        if r.chance(3, 4) {
+            let d = r.below(cfg.depth.max(1));
+            grow_subtree(r, &mut t, parent, label, n, m, d, cfg, &pool);
+        } else if t.tree.num_children(parent) == 0 {
+            // keep the tree well-formed: a decision needs a child
+            grow_subtree(r, &mut t, parent, label, n, m, 0, cfg, &pool);
+        }
+    }
+    t
+}
+
+pub fn sx_eval_pt<const K: usize>(t: &AffTree<K>, x: &Array1<f64>) -> String {
+    match catch(std::panic::AssertUnwindSafe(|| t.evaluate(x))) {
+        Ok(Some(v)) => format!("(pt {} (some {}))", sx_vec(x), sx_vec(&v)),
+        Ok(None) => format!("(pt {} none)", sx_vec(x)),
+        Err(_) => format!("(pt {} panic)", sx_vec(x)),
+    }
+}
+
+/// random lattice points plus points lying exactly on decision hyperplanes of the tree
+pub fn gen_points_for<const K: usize>(r: &mut Rng, t: &AffTree<K>, count: usize) -> Vec<Array1<f64>> {
+    let n = t.in_dim;
+    let mut pts = Vec::new();
+    for _ in 0..count {
+        pts.push(gen_point(r, n));
+    }
+    let decs: Vec<usize> = t.tree.decision_indices().collect();
+    for _ in 0..count {
+        if decs.is_empty() || n == 0 {
+            break;
+        }
+        let d = decs[r.below(decs.len())];
+        let aff = &t.tree.node_value(d).unwrap().aff;
+        if aff.outdim() == 0 {
+            continue;
+        }
+        let row = r.below(aff.outdim());
+        let a = aff.mat.row(row);
+        let b = aff.bias[row];
+        let mut x = gen_point(r, n);
+        let j = r.below(n);
+        if a[j] != 0.0 {
+            let rest: f64 = (0..n).filter(|i| *i != j).map(|i| a[i] * x[i]).sum();
+            x[j] = (b - rest) / a[j];
+            if x[j].is_finite() && (x[j] * 64.0).fract() == 0.0 && a.dot(&x) == b && x[j].abs() < 1e4 {
+                pts.push(x);
+            }
+        }
+    }
+    pts
+}
+pub fn sx_points<const K: usize>(r: &mut Rng, t: &AffTree<K>, count: usize) -> String {
+    let pts = gen_points_for(r, t, count);
+    let ps: Vec<String> = pts.iter().map(|x| sx_eval_pt(t, x)).collect();
+    format!("(pts {})", ps.join(" "))
+}
